@@ -189,7 +189,11 @@ def r15_4(chk):
     oset = cov.setters["orb"]
     ok = f"orb = {oset.params()[1]}.copy(form='cartesian')" in unparse(oset.node) and "self._data['orb'] = orb" in unparse(oset.node)
     chk.inst("R15.4", f"{oset.ref}::snapshot", ok, "the covariance keeps its own cartesian snapshot of the state" if ok else "changed", loc(oset, oset.node))
-    chk.floor("R15.4", 9)
+    from ..ownership import fresh_infos, memo_census
+    fresh_infos(chk, "R15.4")
+    memo_census(chk, "R15.4", only={"beyond/orbits/statevector.py::Infos.kep", "beyond/orbits/statevector.py::Infos.sphe", "beyond/orbits/statevector.py::StateVector.infos",
+                                     "beyond/orbits/ephem.py::Ephem.interp"})
+    chk.floor("R15.4", 12)
 
 
 def run(chk):
